@@ -94,6 +94,8 @@ def build_request(case, rnd):
            "missing": rnd.choice([None, None, ""])}[case["token"]]
     if tok is not None:
         line += ";token=" + tok
+        if rnd.random() < 0.25:
+            line += ";token=" + tok                 # the parameter repeated with the same value: as valid / invalid as once
     return line.encode() + b"\r\n", content
 
 
@@ -281,6 +283,42 @@ def observe(case, st, before, after, content):
     return {"ok": ok, "kind": kind, "at": at, "ghost": ghost}, extra
 
 
+def zero_limit(rep, rnd):
+    """A size limit of 0 is a limit: an endpoint configured to store nothing stores nothing (handler built directly, through
+    ServerConfig and through TOML)."""
+    from pathlib import Path
+    from nauyaca.server.config import ServerConfig
+    n = 0
+    for how in ("direct", "config", "toml"):
+        top = tempfile.mkdtemp(prefix="vf-up0-")
+        up = os.path.join(top, "up")
+        os.makedirs(up)
+        with open(os.path.join(up, "e"), "w") as f:
+            f.write("OLD\n")
+        try:
+            if how == "direct":
+                h = FileUploadHandler(upload_dir=up, max_size=0)
+            elif how == "config":
+                h = ServerConfig(document_root=Path(top), enable_titan=True, titan_upload_dir=Path(up), titan_max_upload_size=0).get_upload_handler()
+            else:
+                p_ = os.path.join(top, "c.toml")
+                with open(p_, "w") as f:
+                    f.write('[server]\ndocument_root = "%s"\n\n[titan]\nenabled = true\nupload_dir = "%s"\nmax_upload_size = 0\n' % (top, up))
+                h = ServerConfig.from_toml(Path(p_)).get_upload_handler()
+            for name, content in (("e", b"X"), ("new.bin", b"12345"), ("e", b"Y" * 5000)):
+                before = snapshot(top)
+                st = run_protocol(h, ("titan://h.ex/%s;size=%d;mime=text/plain" % (name, len(content))).encode() + b"\r\n", content, rnd)
+                after = snapshot(top)
+                n += 1
+                if 20 <= st <= 29 or {k: v for k, v in after.items() if not k.endswith("c.toml")} != {k: v for k, v in before.items() if not k.endswith("c.toml")}:
+                    rep.violation({"formula": "Authorised", "limit": 0},
+                                  "Authorised falsified: size limit 0 (%s): an upload of %d bytes to /%s was answered %d and the tree %s" % (
+                                      how, len(content), name, st, "changed" if after != before else "did not change"), None)
+        finally:
+            shutil.rmtree(top, ignore_errors=True)
+    rep.add("zero_limit_uploads", n)
+
+
 def concurrent_pairs(rep, rnd, count):
     """Two uploads of different content to the SAME path on one server at the same time (two connections, one event
     loop).  If the handler moves its storing to worker threads, the threads are lined up so that both have written before
@@ -428,6 +466,7 @@ def main(pid="C14"):
             elif i % 1009 == 0:
                 rep.sample({k: v for k, v in c.items() if not k.startswith("_extra")})
         concurrent_pairs(rep, rnd, 60 if thorough else 12)
+        zero_limit(rep, rnd)
         rep.set("rule", "all 11 link-slot trees x all 91 paths of <= 2 tokens with randomly drawn request dimensions, plus storage-fault "
                 "cases produced by the OS in a forked child; each through the real protocol with random read segmentation and surplus bytes")
         rep.set("exhaustive", False)
